@@ -213,6 +213,35 @@ fn quats(d: &mut Drv) {
     d.call("from_to", || ft("mat3c"), || em(&cm::Mat3::<Q>::rotation_from_to_3d(v3(&f), v3(&t))));
     d.call("from_to", || ft("mat4r"), || em(&rm::Mat4::<Q>::rotation_from_to_3d(v3(&f), v3(&t))));
     d.call("from_to", || ft("mat4c"), || em(&cm::Mat4::<Q>::rotation_from_to_3d(v3(&f), v3(&t))));
+    // the same on floats, for lengths that an exact lane can only reach through irrational square roots once the code takes a
+    // wrong branch: small integer directions (never nearly opposite unless exactly opposite) scaled by powers of two
+    {
+        let iv = |d: &mut Drv| -> [f64; 3] { loop { let v = [d.rng.gen_range(-6..=6) as f64, d.rng.gen_range(-6..=6) as f64, d.rng.gen_range(-6..=6) as f64]; if v != [0.0; 3] { return v; } } };
+        let a = iv(d);
+        let b = match d.pick(4) { 0 => [-2.0 * a[0], -2.0 * a[1], -2.0 * a[2]], 1 => [4.0 * a[0], 4.0 * a[1], 4.0 * a[2]], _ => iv(d) };
+        let unit = |v: [f64; 3]| { let l = (v[0] * v[0] + v[1] * v[1] + v[2] * v[2]).sqrt(); [v[0] / l, v[1] / l, v[2] / l] };
+        let sc = |x: f64| if x.is_finite() { (x * 1048576.0).round() as i64 } else { 1 << 40 };
+        for (ka, kb) in [(0i32, 0i32), (30, 30), (-30, -30), (40, -20), (27, 27)] {
+            let (fa, fb) = (2f64.powi(ka), 2f64.powi(kb));
+            let (f, t) = (Vec3::new(a[0] * fa, a[1] * fa, a[2] * fa), Vec3::new(b[0] * fb, b[1] * fb, b[2] * fb));
+            d.call("from_to_f", || json!({"ty": "f64", "from": [a[0] as i64, a[1] as i64, a[2] as i64], "to": [b[0] as i64, b[1] as i64, b[2] as i64], "ka": ka, "kb": kb, "tol": 64}), || {
+                let q = Quaternion::<f64>::rotation_from_to_3d(f, t);
+                let i = q * Vec3::new(a[0], a[1], a[2]);
+                let (iu, tu) = (unit([i.x, i.y, i.z]), unit(b));
+                json!({"img": [sc(iu[0]), sc(iu[1]), sc(iu[2])], "to": [sc(tu[0]), sc(tu[1]), sc(tu[2])], "n2": sc(q.x * q.x + q.y * q.y + q.z * q.z + q.w * q.w)})
+            });
+        }
+        for (ka, kb) in [(0i32, 0i32), (12, 12), (-12, -12), (14, 11), (16, -8)] {
+            let (fa, fb) = (2f32.powi(ka), 2f32.powi(kb));
+            let (f, t) = (Vec3::new(a[0] as f32 * fa, a[1] as f32 * fa, a[2] as f32 * fa), Vec3::new(b[0] as f32 * fb, b[1] as f32 * fb, b[2] as f32 * fb));
+            d.call("from_to_f", || json!({"ty": "f32", "from": [a[0] as i64, a[1] as i64, a[2] as i64], "to": [b[0] as i64, b[1] as i64, b[2] as i64], "ka": ka, "kb": kb, "tol": 2048}), || {
+                let q = Quaternion::<f32>::rotation_from_to_3d(f, t);
+                let i = q * Vec3::new(a[0] as f32, a[1] as f32, a[2] as f32);
+                let (iu, tu) = (unit([i.x as f64, i.y as f64, i.z as f64]), unit(b));
+                json!({"img": [sc(iu[0]), sc(iu[1]), sc(iu[2])], "to": [sc(tu[0]), sc(tu[1]), sc(tu[2])], "n2": sc((q.x * q.x + q.y * q.y + q.z * q.z + q.w * q.w) as f64)})
+            });
+        }
+    }
     // angle-axis extraction of rotation_3d(token angle, axis): must describe the same rotation
     // half angles beyond a quarter turn (w < 0) are as frequent as the others
     let ang = if d.pick(2) == 0 { let s = [-1i64, 1][d.pick(2)]; Q::angle(0, 6 * s) } else { token(d, true).2 };
@@ -348,27 +377,47 @@ macro_rules! apply_step2 {
 }
 /// Runs one chain on one matrix type in one form; logs the matrix after every step.
 macro_rules! run_chain {
-    ($d:expr, $m:ident, $M:ident, $n:expr, $apply:ident, $steps:expr, $inplace:expr, $src:expr) => {{
+    ($d:expr, $m:ident, $M:ident, $n:expr, $apply:ident, $steps:expr, $inplace:expr, $src:expr, $start:expr) => {{
         let d: &mut Drv = $d;
         let steps: &Vec<(Step, Vec<Q>)> = $steps;
         let lay = <$m::$M<Q> as MatT<Q>>::LAY;
-        d.call("chain", || json!({"n": $n, "lay": lay, "form": if $inplace { "inplace" } else { "ed" }, "src": $src,
-                                   "steps": Value::Array(steps.iter().map(|s| s.0.json()).collect())}), || {
-            let mut m = $m::$M::<Q>::identity();
+        let start: &Option<Vec<Vec<Q>>> = $start;
+        d.call("chain", || { let mut r = json!({"n": $n, "lay": lay, "form": if $inplace { "inplace" } else { "ed" }, "src": $src,
+                                   "steps": Value::Array(steps.iter().map(|s| s.0.json()).collect())});
+                             if let Some(a) = start { r["start"] = evm(a); } r }, || {
+            let mut m = match start { Some(a) => <$m::$M<Q> as MatT<Q>>::from_rows(a), None => $m::$M::<Q>::identity() };
             let mut obs = vec![];
             for (st, raw) in steps.iter() { $apply!(m, st, raw, $inplace); obs.push(em(&m)); }
             Value::Array(obs)
         });
     }};
 }
-pub fn run_chain_all(d: &mut Drv, n: usize, steps: &Vec<(Step, Vec<Q>)>, src: &str) {
+pub fn run_chain_all(d: &mut Drv, n: usize, steps: &Vec<(Step, Vec<Q>)>, src: &str) { run_chain_from(d, n, steps, src, &None) }
+/// the same chain applied to a receiver that earlier calls left in a given state (None = the identity)
+pub fn run_chain_from(d: &mut Drv, n: usize, steps: &Vec<(Step, Vec<Q>)>, src: &str, start: &Option<Vec<Vec<Q>>>) {
     for inplace in [false, true] {
         match n {
-            4 => { run_chain!(d, rm, Mat4, 4, apply_step4, steps, inplace, src); run_chain!(d, cm, Mat4, 4, apply_step4, steps, inplace, src); }
-            3 => { run_chain!(d, rm, Mat3, 3, apply_step3, steps, inplace, src); run_chain!(d, cm, Mat3, 3, apply_step3, steps, inplace, src); }
-            _ => { run_chain!(d, rm, Mat2, 2, apply_step2, steps, inplace, src); run_chain!(d, cm, Mat2, 2, apply_step2, steps, inplace, src); }
+            4 => { run_chain!(d, rm, Mat4, 4, apply_step4, steps, inplace, src, start); run_chain!(d, cm, Mat4, 4, apply_step4, steps, inplace, src, start); }
+            3 => { run_chain!(d, rm, Mat3, 3, apply_step3, steps, inplace, src, start); run_chain!(d, cm, Mat3, 3, apply_step3, steps, inplace, src, start); }
+            _ => { run_chain!(d, rm, Mat2, 2, apply_step2, steps, inplace, src, start); run_chain!(d, cm, Mat2, 2, apply_step2, steps, inplace, src, start); }
         }
     }
+}
+/// receivers that are not the product of builders: general, affine-looking with a last diagonal element other than 1 (a sum,
+/// a scalar multiple or a diagonal matrix), zero, diagonal, with a zero last column, with a projective last row
+pub fn structured_receiver(d: &mut Drv, n: usize) -> Vec<Vec<Q>> {
+    let mut a: Vec<Vec<Q>> = d.matn(n);
+    let two = Q::int(2);
+    match d.pick(7) {
+        0 => {}
+        1 => { for j in 0..n - 1 { a[n - 1][j] = Q::int(0); } a[n - 1][n - 1] = [two, Q::int(-1), Q::int(3), Q::new(1, 2)][d.pick(4)]; }
+        2 => { for i in 0..n { for j in 0..n { a[i][j] = Q::int(0); } } }
+        3 => { for i in 0..n { for j in 0..n { if i != j { a[i][j] = Q::int(0); } } } if d.pick(2) == 0 { a[n - 1][n - 1] = two; } }
+        4 => { for i in 0..n { a[i][n - 1] = Q::int(0); } }
+        5 => { let k = nzq(&mut d.rng); for i in 0..n { for j in 0..n { a[i][j] = if i == j { k } else { Q::int(0) }; } } }
+        _ => { for j in 0..n - 1 { a[n - 1][j] = Q::int(0); } a[n - 1][n - 1] = Q::int(1); a[n - 2][n - 1] = Q::int(0); }
+    }
+    a
 }
 
 macro_rules! ctors {
@@ -434,6 +483,10 @@ pub fn drive_affine(args: &[String]) {
             let len = 1 + d.pick(maxlen);
             let steps: Vec<(Step, Vec<Q>)> = (0..len).map(|_| { let k = kinds[d.pick(kinds.len())]; random_step(&mut d, k) }).collect();
             run_chain_all(&mut d, sz, &steps, "random");
+            // a short chain on a receiver in a state no builder produces
+            let start = Some(structured_receiver(&mut d, sz));
+            let short: Vec<(Step, Vec<Q>)> = (0..1 + d.pick(2)).map(|_| { let k = kinds[d.pick(kinds.len())]; random_step(&mut d, k) }).collect();
+            run_chain_from(&mut d, sz, &short, "structured", &start);
         }
     }
     d.finish(arg(args, "--summary"));
@@ -469,7 +522,8 @@ macro_rules! views {
         }
         // change of basis: orthonormal (i, j, k) and a general (non-orthonormal) basis for local_to_basis
         let o: Vec<Q> = (0..3).map(|_| Q::int(d.rng.gen_range(-4..=4))).collect();
-        let (i, j, k) = (col(0), col(1), col(2));
+        // orthonormal bases of both orientations: right-handed (a rotation), or left-handed (one axis mirrored / two axes swapped)
+        let (i, j, k) = match d.pick(4) { 0 => (col(0), col(1), col(2).iter().map(|x| -*x).collect()), 1 => (col(1), col(0), col(2)), _ => (col(0), col(1), col(2)) };
         let ba = |ortho: i64, i: &Vec<Q>, j: &Vec<Q>, k: &Vec<Q>| json!({"lay": lay, "ortho": ortho, "o": evs(&o), "i": evs(i), "j": evs(j), "k": evs(k)});
         d.call("local_to_basis", || ba(1, &i, &j, &k), || em(&$m::Mat4::<Q>::local_to_basis(v3(&o), v3(&i), v3(&j), v3(&k))));
         d.call("basis_to_local", || ba(1, &i, &j, &k), || em(&$m::Mat4::<Q>::basis_to_local(v3(&o), v3(&i), v3(&j), v3(&k))));
